@@ -109,6 +109,10 @@ func (w *World) methodContracts() map[string][]methodSpec {
 
 // instantiate adds definitional facts for ground applications found in the assertions.
 func (ex *Ex) instantiate(asserts []*T, heap map[string]*T, rounds int) []*T {
+	return ex.instantiateR(asserts, heap, rounds, nil)
+}
+
+func (ex *Ex) instantiateR(asserts []*T, heap map[string]*T, rounds int, reveal map[string]bool) []*T {
 	w := ex.W
 	done := map[string]bool{}
 	st := NewState()
@@ -141,7 +145,7 @@ func (ex *Ex) instantiate(asserts []*T, heap map[string]*T, rounds int) []*T {
 			key := app.String()
 			name := strings.TrimPrefix(app.Op, "f$")
 			f := w.SpecFuncs[name]
-			if f != nil && f.Unfold != nil && !done["u:"+key] {
+			if f != nil && f.Unfold != nil && !done["u:"+key] && (!f.Opaque || reveal[name]) && !reveal["!"+name] {
 				done["u:"+key] = true
 				env := &Env{ex: ex, st: st, vars: map[string]SV{}, pkgName: f.PkgName}
 				ok := true
@@ -214,6 +218,108 @@ func (ex *Ex) instantiate(asserts []*T, heap map[string]*T, rounds int) []*T {
 	return extra
 }
 
+// quantifiedDefiners: a spec function that names the result of a function (`defines`) and is applied
+// to bound variables somewhere gets the function's contract as a quantified fact (pattern: the
+// application), since ground instantiation cannot reach those applications.
+func (ex *Ex) quantifiedDefiners(asserts []*T, heap map[string]*T) []*T {
+	w := ex.W
+	need := map[string]bool{}
+	var rec func(t *T, bound map[string]bool)
+	rec = func(t *T, bound map[string]bool) {
+		if t.Kind == kQuant {
+			nb := map[string]bool{}
+			for k := range bound {
+				nb[k] = true
+			}
+			for _, v := range t.QVars {
+				nb[v.Op] = true
+			}
+			rec(t.Args[0], nb)
+			return
+		}
+		if t.Kind == kApp && w.definers()[t.Op] != nil && containsBound(t, bound) {
+			need[t.Op] = true
+		}
+		for _, a := range t.Args {
+			rec(a, bound)
+		}
+	}
+	for _, a := range asserts {
+		rec(a, map[string]bool{})
+	}
+	var out []*T
+	for _, sym := range sortedKeys(need) {
+		d := w.definers()[sym]
+		fn := d.fn
+		st := NewState()
+		st.heap = copyHeap(heap)
+		var vars, args []*T
+		ok := true
+		for _, a := range d.ctr.Defines.Args {
+			if a.Kind != "ident" {
+				ok = false
+				break
+			}
+			found := false
+			for _, p := range fn.Params {
+				if p.Name() == a.Name {
+					v := Var(p.Name()+"$d", w.SortOf(p.Type()))
+					vars = append(vars, v)
+					args = append(args, v)
+					st.regs[p] = Val{T: v}
+					found = true
+				}
+			}
+			if !found {
+				ok = false
+			}
+		}
+		if !ok || fn.Signature.Results().Len() != 1 {
+			continue
+		}
+		for _, p := range fn.Params {
+			if _, has := st.regs[p]; !has {
+				st.regs[p] = Val{T: Var("any$"+p.Name(), w.SortOf(p.Type()))}
+			}
+		}
+		rt := fn.Signature.Results().At(0).Type()
+		app := App(sym, w.SortOf(rt), args...)
+		cf := &Frame{Fn: fn, Ctr: d.ctr, Name: w.funcName(fn), Entry: st}
+		env := ex.newEnv(cf, st)
+		env.pkgName = d.ctr.PkgName
+		env.results = []SV{{T: app, Ty: SType{G: rt}}}
+		env.resNames = resultNames(fn.Signature)
+		var pres, posts []*T
+		for _, rq := range d.ctr.Requires {
+			if !ex.activeProps(rq.Props) {
+				continue
+			}
+			t, err := ex.trBool(env, rq.E)
+			if err != nil {
+				ok = false
+				break
+			}
+			pres = append(pres, t)
+		}
+		for _, en := range d.ctr.Ensures {
+			if !ex.activeProps(en.Props) {
+				continue
+			}
+			t, err := ex.trBool(env, en.E)
+			if err != nil {
+				ok = false
+				break
+			}
+			posts = append(posts, t)
+		}
+		if !ok || len(posts) == 0 {
+			continue
+		}
+		out = append(out, Forall(vars, Implies(And(pres...), And(posts...)), []*T{app}))
+	}
+	return out
+}
+
 // closureAxioms: for every closure constant fn$F mentioned in the query whose function has a
 // contract (and no free variables): fn$F is non-nil, distinct from the other closure constants,
 // and its contract holds for all arguments (quantified, with the result applications as patterns;
@@ -274,6 +380,9 @@ func (ex *Ex) closureAxioms(asserts []*T, heap map[string]*T) []*T {
 		var pres, posts []*T
 		ok := true
 		for _, rq := range ctr.Requires {
+			if !ex.activeProps(rq.Props) {
+				continue
+			}
 			t, err := ex.trBool(env, rq.E)
 			if err != nil {
 				ok = false
@@ -282,6 +391,9 @@ func (ex *Ex) closureAxioms(asserts []*T, heap map[string]*T) []*T {
 			pres = append(pres, t)
 		}
 		for _, en := range ctr.Ensures {
+			if !ex.activeProps(en.Props) {
+				continue
+			}
 			t, err := ex.trBool(env, en.E)
 			if err != nil {
 				ok = false
@@ -337,6 +449,9 @@ func (ex *Ex) closureFact(st *State, app *T) *T {
 	env.resNames = resultNames(sig)
 	var pres, posts []*T
 	for _, rq := range ctr.Requires {
+		if !ex.activeProps(rq.Props) {
+			continue
+		}
 		t, err := ex.trBool(env, rq.E)
 		if err != nil {
 			return nil
@@ -344,6 +459,9 @@ func (ex *Ex) closureFact(st *State, app *T) *T {
 		pres = append(pres, t)
 	}
 	for _, en := range ctr.Ensures {
+		if !ex.activeProps(en.Props) {
+			continue
+		}
 		t, err := ex.trBool(env, en.E)
 		if err != nil {
 			w.warnf("closure contract %s: %v", cf.Name, err)
@@ -415,6 +533,9 @@ func (ex *Ex) definerFact(st *State, app *T, d *definer) *T {
 	env.resNames = resultNames(fn.Signature)
 	var pres, posts []*T
 	for _, rq := range d.ctr.Requires {
+		if !ex.activeProps(rq.Props) {
+			continue
+		}
 		t, err := ex.trBool(env, rq.E)
 		if err != nil {
 			return nil
@@ -422,6 +543,9 @@ func (ex *Ex) definerFact(st *State, app *T, d *definer) *T {
 		pres = append(pres, t)
 	}
 	for _, en := range d.ctr.Ensures {
+		if !ex.activeProps(en.Props) {
+			continue
+		}
 		t, err := ex.trBool(env, en.E)
 		if err != nil {
 			w.warnf("definer %s: %v", cf.Name, err)
@@ -474,6 +598,9 @@ func (ex *Ex) dispatchFact(st *State, app *T, im *IfaceMethod, ms methodSpec) *T
 	env.resNames = resultNames(fn.Signature)
 	var posts []*T
 	for _, en := range ms.ctr.Ensures {
+		if !ex.activeProps(en.Props) {
+			continue
+		}
 		t, err := ex.trBool(env, en.E)
 		if err != nil {
 			w.warnf("dispatch %s: %v", cf.Name, err)
@@ -488,6 +615,9 @@ func (ex *Ex) dispatchFact(st *State, app *T, im *IfaceMethod, ms methodSpec) *T
 	}
 	var pres []*T
 	for _, rq := range ms.ctr.Requires {
+		if !ex.activeProps(rq.Props) {
+			continue
+		}
 		t, err := ex.trBool(env, rq.E)
 		if err != nil {
 			return nil
@@ -623,6 +753,9 @@ func (ex *Ex) relevantAxioms(asserts []*T, heap map[string]*T) []*T {
 				if x.Kind == kApp && !builtinOps[x.Op] {
 					syms[x.Op] = true
 				}
+				if x.Kind == kVar && strings.HasPrefix(x.Op, "G$") {
+					syms[x.Op] = true
+				}
 			})
 		}
 	}
@@ -649,6 +782,9 @@ func (ex *Ex) relevantAxioms(asserts []*T, heap map[string]*T) []*T {
 				if x.Kind == kApp && !builtinOps[x.Op] && syms[x.Op] && (strings.HasPrefix(x.Op, "f$") || strings.HasPrefix(x.Op, "x$")) {
 					rel = true
 				}
+				if x.Kind == kVar && strings.HasPrefix(x.Op, "G$") && syms[x.Op] {
+					rel = true
+				}
 			})
 			if rel {
 				used[ax] = true
@@ -664,7 +800,7 @@ func (ex *Ex) relevantAxioms(asserts []*T, heap map[string]*T) []*T {
 // quantifiedUnfolds: for recursive spec functions applied to bound variables somewhere in the
 // query, ground instantiation cannot reach; emit the definitional axiom quantified with the
 // application as its pattern (e-matching).
-func (ex *Ex) quantifiedUnfolds(asserts []*T, heap map[string]*T) []*T {
+func (ex *Ex) quantifiedUnfolds(asserts []*T, heap map[string]*T, reveal map[string]bool) []*T {
 	w := ex.W
 	need := map[string]bool{}
 	var rec func(t *T, bound map[string]bool)
@@ -702,7 +838,7 @@ func (ex *Ex) quantifiedUnfolds(asserts []*T, heap map[string]*T) []*T {
 			}
 			done[sym] = true
 			f := w.SpecFuncs[strings.TrimPrefix(sym, "f$")]
-			if f == nil || f.Unfold == nil {
+			if f == nil || f.Unfold == nil || (f.Opaque && !reveal[f.Name]) || reveal["!"+f.Name] {
 				continue
 			}
 			env := &Env{ex: ex, st: st, vars: map[string]SV{}, pkgName: f.PkgName}
@@ -750,17 +886,19 @@ func (ex *Ex) quantifiedUnfolds(asserts []*T, heap map[string]*T) []*T {
 // BuildSMT renders a query.
 func (ex *Ex) BuildSMT(q *Query, rounds int) string {
 	w := ex.W
+	ex.Props = q.Props // scoped clauses of contracts used as facts follow the producing run's scope
 	asserts := append([]*T(nil), q.PC...)
 	asserts = append(asserts, Not(q.Goal))
-	extra := ex.instantiate(asserts, q.Heap, rounds)
+	extra := ex.instantiateR(asserts, q.Heap, rounds, q.Reveal)
 	asserts = append(asserts, extra...)
 	ax := ex.relevantAxioms(asserts, q.Heap)
 	asserts = append(asserts, ax...)
 	// instances for terms introduced by axioms
-	extra2 := ex.instantiate(asserts, q.Heap, 1)
+	extra2 := ex.instantiateR(asserts, q.Heap, 1, q.Reveal)
 	asserts = append(asserts, extra2...)
-	asserts = append(asserts, ex.quantifiedUnfolds(asserts, q.Heap)...)
+	asserts = append(asserts, ex.quantifiedUnfolds(asserts, q.Heap, q.Reveal)...)
 	asserts = append(asserts, ex.closureAxioms(asserts, q.Heap)...)
+	asserts = append(asserts, ex.quantifiedDefiners(asserts, q.Heap)...)
 	facts, tdefs := ex.typeFacts(asserts)
 	asserts = append(asserts, facts...)
 	// results of spec functions declared with an interface type have that interface's methods
@@ -805,6 +943,43 @@ func (ex *Ex) BuildSMT(q *Query, rounds int) string {
 			rec(a, map[string]bool{})
 		}
 		asserts = append(asserts, wf...)
+	}
+	// string literals come from program / contract text: they are PII-free
+	{
+		usesSafe := false
+		lits := map[string]*T{}
+		for _, a := range asserts {
+			Walk(a, func(x *T) {
+				if x.Kind == kApp && x.Op == "f$safeS" {
+					usesSafe = true
+				}
+				if x.Kind == kStr {
+					lits[x.Op] = x
+				}
+			})
+		}
+		if usesSafe {
+			for _, k := range sortedKeys(lits) {
+				asserts = append(asserts, App("f$safeS", SBool, lits[k]))
+			}
+			// ground instances of axiom safe_concat: the solvers do not e-match reliably on the
+			// interpreted str.++, so the instances for the concatenations of the query are spelled out
+			hasConcatAx := false
+			for _, ax := range w.Axioms {
+				if ax.Name == "safe_concat" {
+					hasConcatAx = true
+				}
+			}
+			if hasConcatAx {
+				for _, app := range groundApps(asserts, func(op string) bool { return op == "str.++" }) {
+					var parts []*T
+					for _, a := range app.Args {
+						parts = append(parts, App("f$safeS", SBool, a))
+					}
+					asserts = append(asserts, Implies(And(parts...), App("f$safeS", SBool, app)))
+				}
+			}
+		}
 	}
 	// slice lengths are non-negative
 	for _, la := range groundApps(asserts, func(op string) bool { return strings.HasPrefix(op, "len$Slice$") }) {
